@@ -124,6 +124,10 @@ def write_if_changed(path, content):
 def lake_build(targets):
     """lake build of the given module targets (+ the driver). Returns (ok, log)."""
     r = sh([os.path.join(VERIF, "tools", "lk"), "build"] + list(targets))
+    if r.returncode != 0 and "uvmodel" in targets and "Driver" in r.stdout:
+        # a driver of a property that is still under construction does not compile:
+        # rebuild the dispatcher with the claimed properties' drivers only
+        r = sh([os.path.join(VERIF, "tools", "lk"), "build"] + list(targets), env=dict(os.environ, VERIF_DISPATCH="claimed"))
     return r.returncode == 0, r.stdout
 
 
